@@ -22,6 +22,18 @@ type KnownFinding struct {
 	What       string `json:"what"`
 	Witness    string `json:"witness_input,omitempty"`
 	Commit     string `json:"commit,omitempty"`
+	Also       []string `json:"also_properties,omitempty"` // further properties the same defect violates
+}
+
+// knownLine prints the KNOWN-FINDING line of a failed obligation that is a listed finding. The finding is attributed to the
+// property it is recorded for: when the obligation merely supports the proof of the property being checked (the relation it
+// speaks about is shared), the line names the finding's own property and says so.
+func knownLine(prop string, k KnownFinding, name string) {
+	if k.Property == prop || hasProp(k.Also, prop) {
+		fmt.Printf("KNOWN-FINDING: property=%s %s %s\n", prop, name, k.What)
+		return
+	}
+	fmt.Printf("KNOWN-FINDING: property=%s %s %s [met while checking %s: the obligation is shared with the proof of %s, which it does not violate; it is a listed finding of %s]\n", k.Property, name, k.What, prop, prop, k.Property)
 }
 
 type LockFile struct {
@@ -273,7 +285,7 @@ func cmdCheck(prop, tier string, jobs int) int {
 			continue
 		}
 		if k, ok := lookupKnown(ob.Name); ok {
-			fmt.Printf("KNOWN-FINDING: property=%s %s %s\n", prop, ob.Name, k.What)
+			knownLine(prop, k, ob.Name)
 			knownHit = append(knownHit, ob.Name)
 			continue
 		}
@@ -302,7 +314,7 @@ func cmdCheck(prop, tier string, jobs int) int {
 	for _, ob := range pr.bounded {
 		if ob.Result != "pass" {
 			if k, ok := lookupKnown(ob.Name); ok {
-				fmt.Printf("KNOWN-FINDING: property=%s %s %s\n", prop, ob.Name, k.What)
+				knownLine(prop, k, ob.Name)
 				knownHit = append(knownHit, ob.Name)
 				continue
 			}
